@@ -26,6 +26,9 @@ def rates(draw):
         return draw(st.sampled_from(NAMED_RATES))
     n = draw(st.one_of(st.integers(1, 2000), st.integers(1, (1 << 32) - 1)))
     d = draw(st.one_of(st.integers(1, 50), st.integers(1, 10 ** 9)))
+    # at least one sample per hour, so that a file cadence of <= 1 h can hold a sample in every file
+    if n * 3600 < d:
+        d = max(1, n * draw(st.integers(1, 3600)))
     # n*d < 2^64 and the year-2100 index must stay below 2^63
     while n * d >= 1 << 64 or (T2100 * n) // d >= 1 << 62:
         if d > 1:
